@@ -191,6 +191,26 @@ pub fn run(ctx: &mut Ctx) {
             must_be_literal(ctx, "short-key", &v, &ds[2]);
         }
     }
+    // size probes: big literals full of operation-shaped content stay inert
+    for n in al::size_classes(false) {
+        if !ctx.mine() {
+            continue;
+        }
+        let arr: Vec<Value> = (0..n).map(|i| if i % 3 == 0 { json!({"log": "LEAK"}) } else if i % 3 == 1 { json!({"var": "s"}) } else { json!(i) }).collect();
+        must_be_literal(ctx, "size-probe:array", &Value::Array(arr.clone()), &ds[2]);
+        let mut m = Map::new();
+        for (i, name) in OPS.iter().cycle().take(n.max(2)).enumerate() {
+            m.insert(format!("{}{}", name, if i < OPS.len() { "".to_string() } else { i.to_string() }), loud_args());
+        }
+        if m.len() >= 2 {
+            must_be_literal(ctx, "size-probe:object-of-operator-keys", &Value::Object(m), &ds[2]);
+        }
+        let mut nested = json!({"log": "LEAK"});
+        for i in 0..n.min(100) {
+            nested = if i % 2 == 0 { json!([nested]) } else { json!({"k": nested, "j": 1}) };
+        }
+        must_be_literal(ctx, "size-probe:nested", &nested, &ds[2]);
+    }
     // dispatch side, negative form: a single-key object keyed by an operator name is never
     // returned as a literal, whatever its operands are (wrong counts and shapes included)
     let v0 = al::v0();
